@@ -63,6 +63,11 @@ Qed.
 Lemma rep_nil : forall db, sorted db -> rep db [] db.
 Proof. intros. split; [apply Inv_nil|]. split; auto. Qed.
 
+Lemma R_intro : forall db c m dviews sviews, Inv db c -> sorted m -> (forall k, lookup m k = overlay db c k) ->
+  Forall2 (view_rel db) dviews sviews ->
+  R db {| d_cache := c; d_views := dviews |} {| s_map := m; s_views := sviews |}.
+Proof. intros. split; [split; [|split]|]; assumption. Qed.
+
 Theorem step_refines : forall db d s o, sorted db -> wf_db db -> R db d s -> op_wf o ->
   snd (step db d o) = snd (spec_step s o) /\ R db (fst (step db d o)) (fst (spec_step s o)).
 Proof.
@@ -72,53 +77,54 @@ Proof.
                            | Some a, Some b => view_rel db a b | None, None => True | _, _ => False end)
     by (intros; apply Forall2_nth_error; auto).
   destruct d as [c dviews]. destruct s as [m sviews]. simpl in *.
+  assert (HR0 : R db {| d_cache := c; d_views := dviews |} {| s_map := m; s_views := sviews |}) by (apply R_intro; auto).
   destruct o as [i k|i k|i k x|i k|i s0 e limit reverse|i p limit reverse|i|i id|i id|i p]; simpl;
     specialize (Hnth i); destruct (nth_error dviews i) as [dv|] eqn:Ed; destruct (nth_error sviews i) as [sv|] eqn:Es;
-    try contradiction; try (split; [reflexivity|split; [split; [exact HI|split; [exact Hsm|exact Hm]]|exact Hviews]]);
+    try contradiction; try (split; [reflexivity|exact HR0]);
     destruct Hnth as (Epfx & Hwpfx & Ecnt & Hsnaps); rewrite <- ?Epfx.
   - (* Get *)
     destruct (get_refines db c (v_prefix dv) k HI) as (A & B & C).
     destruct (db_Get db c (v_prefix dv) k) as [r c']. simpl in *. split; [rewrite A, Hm; reflexivity|].
-    split; auto. split; auto. split; auto. intros k0. rewrite C. apply Hm.
+    apply R_intro; auto. intros k0. rewrite C. apply Hm.
   - (* Has *)
     destruct (get_refines db c (v_prefix dv) k HI) as (A & B & C).
     destruct (db_Get db c (v_prefix dv) k) as [r c']. simpl in *. split; [rewrite A, Hm; reflexivity|].
-    split; auto. split; auto. split; auto. intros k0. rewrite C. apply Hm.
+    apply R_intro; auto. intros k0. rewrite C. apply Hm.
   - (* Set *)
-    destruct (set_refines db c (v_prefix dv) k x HI) as (c' & -> & B & C). simpl. split; auto.
-    split; auto. split; auto. split; [apply insert_sorted; auto|]. intros k0. rewrite lookup_insert, C, Hm. reflexivity.
+    destruct (set_refines db c (v_prefix dv) k x HI) as (c' & -> & B & C). simpl. split; [reflexivity|].
+    apply R_intro; auto using insert_sorted. intros k0. rewrite lookup_insert, C, Hm. reflexivity.
   - (* Del *)
-    destruct (del_refines db c (v_prefix dv) k HI) as (B & C). split; auto.
-    split; auto. split; auto. split; [apply remove_sorted; auto|]. intros k0. rewrite lookup_remove by auto. rewrite C, Hm. reflexivity.
+    destruct (del_refines db c (v_prefix dv) k HI) as (B & C). split; [reflexivity|].
+    apply R_intro; auto using remove_sorted. intros k0. rewrite lookup_remove by auto. rewrite C, Hm. reflexivity.
   - (* Range *)
     destruct (range_refines db c m (v_prefix dv) s0 e limit reverse Hsdb Hsm HI Hm) as (A & B & C).
     destruct (db_Range db c (v_prefix dv) s0 e limit reverse) as [r c']. simpl in *. split; [rewrite A; reflexivity|].
-    split; auto. split; auto. split; auto. intros k0. rewrite C. apply Hm.
+    apply R_intro; auto. intros k0. rewrite C. apply Hm.
   - (* Iterate *)
     assert (Hw : wf_key (v_prefix dv ++ p)) by (apply Forall_app; split; auto).
     destruct (iterate_refines db c m (v_prefix dv) p limit reverse Hsdb Hwdb Hw Hsm HI Hm) as (A & B & C).
     destruct (db_Iterate db c (v_prefix dv) p limit reverse) as [r c']. simpl in *. split; [rewrite A; reflexivity|].
-    split; auto. split; auto. split; auto. intros k0. rewrite C. apply Hm.
+    apply R_intro; auto. intros k0. rewrite C. apply Hm.
   - (* Snapshot *)
-    split; [rewrite Ecnt; reflexivity|]. split; [split; auto|]. simpl.
-    apply Forall2_set_nth; auto. split; [exact Epfx|]. split; [exact Hwpfx|]. simpl. split; [rewrite Ecnt; reflexivity|].
+    split; [rewrite Ecnt; reflexivity|]. apply R_intro; auto.
+    apply Forall2_set_nth; auto. split; [reflexivity|]. split; [exact Hwpfx|]. simpl. split; [rewrite Ecnt; reflexivity|].
     unfold snap_put. constructor.
     + split; [exact Ecnt|]. unfold c_copy. simpl. split; auto.
     + rewrite Ecnt. apply snap_del_rel; auto.
   - (* Restore *)
     pose proof (snap_get_rel db (v_snaps dv) (sv_snaps sv) id Hsnaps) as Hg.
     destruct (snap_get (v_snaps dv) id) as [snap|]; destruct (snap_get (sv_snaps sv) id) as [saved|]; try contradiction.
-    + simpl. split; auto. split; [exact Hg|]. simpl.
-      apply Forall2_set_nth; auto. split; [exact Epfx|]. split; [exact Hwpfx|]. split; [exact Ecnt|].
+    + simpl. split; [reflexivity|]. destruct Hg as (G1 & G2 & G3). apply R_intro; auto.
+      apply Forall2_set_nth; auto. split; [reflexivity|]. split; [exact Hwpfx|]. split; [exact Ecnt|].
       apply snap_del_rel; auto.
-    + simpl. split; auto. split; auto. split; auto.
+    + simpl. split; [reflexivity|exact HR0].
   - (* DeleteSnapshot *)
-    split; auto. split; [split; auto|]. simpl.
-    apply Forall2_set_nth; auto. split; [exact Epfx|]. split; [exact Hwpfx|]. split; [exact Ecnt|].
+    split; [reflexivity|]. apply R_intro; auto.
+    apply Forall2_set_nth; auto. split; [reflexivity|]. split; [exact Hwpfx|]. split; [exact Ecnt|].
     apply snap_del_rel; auto.
   - (* WithPrefix *)
-    split; auto. split; [split; auto|]. simpl. apply Forall2_app; auto. constructor; [|constructor].
-    split; [simpl; rewrite Epfx; reflexivity|]. split; [simpl; apply Forall_app; split; auto|]. split; [reflexivity|constructor].
+    split; [reflexivity|]. apply R_intro; auto. apply Forall2_app; auto. constructor; [|constructor].
+    split; [reflexivity|]. split; [simpl; apply Forall_app; split; auto|]. split; [reflexivity|constructor].
 Qed.
 
 (* ------------------------------------------------------------------ all operation sequences *)
@@ -159,26 +165,37 @@ Qed.
 
 (* restoring a snapshot returns exactly the staged state at the time of the snapshot (specification side:
    immediate; stated for the implementation through the refinement) *)
+Lemma set_nth_other : forall {A} (l : list A) j i x, j <> i -> nth_error (set_nth l j x) i = nth_error l i.
+Proof. induction l as [|y l IH]; intros [|j] [|i] x H; simpl; auto; try congruence. Qed.
+Lemma set_nth_same : forall {A} (l : list A) j x y, nth_error l j = Some y -> nth_error (set_nth l j x) j = Some x.
+Proof. induction l as [|z l IH]; intros [|j] x y H; simpl in *; try discriminate; auto. eapply IH; eauto. Qed.
+
+(* [o] is not a snapshot-management operation addressed to view [i] (reads, writes, scans on any view and
+   snapshot operations of other views are all allowed) *)
+Definition no_snap_op_on (i : nat) (o : op) : Prop :=
+  match o with OSnapshot j | ORestore j _ | ODeleteSnapshot j _ => j <> i | _ => True end.
+
 Lemma spec_restore_exact : forall s i vw,
   nth_error (s_views s) i = Some vw ->
   let s1 := fst (spec_step s (OSnapshot i)) in
-  forall ops, (forall o, In o ops -> match o with OSnapshot j | ORestore j _ | ODeleteSnapshot j _ => j <> i | OWithPrefix _ _ => True | _ => True end) ->
+  forall ops, (forall o, In o ops -> no_snap_op_on i o) ->
   let s2 := fst (spec_run s1 ops) in
   s_map (fst (spec_step s2 (ORestore i (sv_count vw)))) = s_map s.
 Proof.
   intros s i vw Hn s1 ops Hops s2.
   (* the snapshot (id, map) stays in view i's list while no snapshot operation addresses view i *)
-  assert (Hkeep : forall ops s1, (forall o, In o ops -> match o with OSnapshot j | ORestore j _ | ODeleteSnapshot j _ => j <> i | _ => True end) ->
+  assert (Hkeep : forall ops s1, (forall o, In o ops -> no_snap_op_on i o) ->
             forall vw1, nth_error (s_views s1) i = Some vw1 ->
             exists vw2, nth_error (s_views (fst (spec_run s1 ops))) i = Some vw2 /\ sv_snaps vw2 = sv_snaps vw1).
   { clear. induction ops as [|o t IH]; intros s1 Hops vw1 Hn; simpl; [eauto|].
     assert (Hstep : exists vw', nth_error (s_views (fst (spec_step s1 o))) i = Some vw' /\ sv_snaps vw' = sv_snaps vw1).
-    { assert (Ho := Hops o (or_introl eq_refl)).
-      assert (Hset : forall (l : list sview) j x, j <> i -> nth_error (set_nth l j x) i = nth_error l i).
-      { clear. induction l as [|y l IH]; intros [|j] x Hj; destruct i; simpl; auto; try congruence. apply IH. congruence. }
-      destruct o; simpl; destruct (nth_error (s_views s1) v) eqn:Ev; simpl; eauto.
+    { assert (Ho := Hops o (or_introl eq_refl)). unfold no_snap_op_on in Ho.
+      assert (Hset : forall (l : list sview) j x, j <> i -> nth_error (set_nth l j x) i = nth_error l i)
+        by (intros; apply set_nth_other; auto).
+      destruct o as [j k|j k|j k x|j k|j a b l r|j p l r|j|j id|j id|j p]; simpl;
+        destruct (nth_error (s_views s1) j) as [w|] eqn:Ev; simpl; eauto.
       - rewrite Hset by auto. eauto.
-      - destruct (snap_get (sv_snaps s0) id); simpl; eauto. rewrite Hset by auto. eauto.
+      - destruct (snap_get (sv_snaps w) id); simpl; eauto. rewrite Hset by auto. eauto.
       - rewrite Hset by auto. eauto.
       - exists vw1. split; auto. rewrite nth_error_app1; auto. apply nth_error_Some. congruence. }
     destruct Hstep as (vw' & Hn' & Es).
@@ -187,9 +204,7 @@ Proof.
     destruct (spec_run s1' t) as [s'' rs]. simpl in *. exists vw2. split; auto. congruence. }
   assert (Hn1 : exists vw1, nth_error (s_views s1) i = Some vw1 /\ snap_get (sv_snaps vw1) (sv_count vw) = Some (s_map s)).
   { unfold s1. simpl. rewrite Hn. simpl.
-    assert (Hsn : forall (l : list sview) j x y, nth_error l j = Some y -> nth_error (set_nth l j x) j = Some x).
-    { clear. induction l as [|z l IH]; intros [|j] x y H; simpl in *; try discriminate; auto. eapply IH; eauto. }
-    eexists. split; [eapply Hsn; eauto|]. simpl. rewrite N.eqb_refl. reflexivity. }
+    eexists. split; [eapply set_nth_same; eauto|]. simpl. rewrite N.eqb_refl. reflexivity. }
   destruct Hn1 as (vw1 & Hn1 & Hg).
   destruct (Hkeep ops s1 Hops vw1 Hn1) as (vw2 & Hn2 & E2). fold s2 in Hn2.
   simpl. rewrite Hn2. rewrite E2, Hg. reflexivity.
